@@ -8,7 +8,7 @@ siblings, bottom-up, until nothing changes.
   comparisons   x == None -> x is None; type(x) == T -> type(x) is T; not a in b -> a not in b; not (a == b) -> a != b; not not x -> x
   branches      if not c: A else: B -> if c: B else: A;  if c: T (ends in return/raise/continue/break) ; REST -> if c: T else: REST;
                 top level `if c: return` ; REST -> if not c: REST;  if a: (if b: S) -> if a and b: S;
-                if c: return True else: return False -> return c;  if c: x = A else: x = B -> x = A if c else B
+                if c: return True else: return False -> return c;  x = A if c else B -> if c: x = A else: x = B (also return)
   loops         v = [] ; for ..: [if ..:] v.append(e) -> v = [e for .. if ..] (also set()/add);  for x in E: yield x -> yield from E
   locals        v = E ; <simple statement using v once, v dead afterwards> -> the statement with E in place of v
   expressions   range(0, n) -> range(n);  x[len(x) - 1] -> x[-1];  lambda a: f(a) -> f;  super(C, self) -> super();
@@ -263,17 +263,31 @@ def _if(n):
             return ast.Return(value=n.test)
         if _bool_valued(n.test) and _ret_const(a, False) and _ret_const(b, True):
             return ast.Return(value=negate(n.test))
-        if isinstance(a, ast.Assign) and isinstance(b, ast.Assign) and len(a.targets) == 1 and len(b.targets) == 1 \
-                and ast.dump(a.targets[0]) == ast.dump(b.targets[0]):
-            return ast.Assign(targets=a.targets, value=_Expr().visit(ast.IfExp(test=n.test, body=a.value, orelse=b.value)), lineno=0)
-        if isinstance(a, ast.Return) and isinstance(b, ast.Return) and a.value is not None and b.value is not None:
-            return ast.Return(value=_Expr().visit(ast.IfExp(test=n.test, body=a.value, orelse=b.value)))
     return n
+
+
+def _split_ifexp(st):
+    """`x = A if c else B` / `return A if c else B` -> the statement form (one alternative per line)."""
+    if isinstance(st, (ast.Assign, ast.Return, ast.AugAssign)) and isinstance(getattr(st, "value", None), ast.IfExp):
+        e = st.value
+        a, b = copy.copy(st), copy.copy(st)
+        a.value, b.value = e.body, e.orelse
+        return _if(ast.If(test=e.test, body=[_split_ifexp(a)], orelse=[_split_ifexp(b)]))
+    return st
 
 
 class _Stmt(ast.NodeTransformer):
     def __init__(self):
         self.depth = 0
+
+    def visit_Assign(self, n):
+        return _split_ifexp(n)
+
+    def visit_AugAssign(self, n):
+        return _split_ifexp(n)
+
+    def visit_Return(self, n):
+        return _split_ifexp(n)
 
     def _blk(self, stmts, top=False):
         return _block([self.visit(s) for s in stmts], top) or [ast.Pass()]
